@@ -3,7 +3,7 @@ from __future__ import annotations
 
 from .. import gen
 from ..core import Ctx, Result
-from ..pipeline import finalize_cov, mk_spec, qinit, run_pipeline
+from ..pipeline import LARGE_N, embed_positions, finalize_cov, mk_spec, qinit, run_pipeline
 
 PROFILES = [
     ("random", {}),
@@ -53,6 +53,17 @@ def make_specs(ctx: Ctx, n):
         if i % 4 == 0 and len(specs) % 4 != 0:
             # the twin runs right after its sibling in the same driver process (chunks of 4 consecutive cases)
             specs.append(mk_spec(len(specs), gen.twin(rng, m), ["c13"], plan, label=label + "; twin (same names, other bodies)"))
+    # large panels (tens of thousands of rows, additional targets): 12 agents spread over the panel are judged row by row
+    r2 = ctx.rng("large")
+    for j in range(max(2, n // 40)):
+        m = gen.rand_model(r2, {"p_w": 1.0, "p_c": 1.0, "T": [2, 3], "p_r": 0.5, "p_e": 0.0, "max_cells": 600})
+        k = 12
+        init = qinit(gen.rand_initial_states(r2, m, k))
+        pool = target_pool(m)
+        n_full = LARGE_N[j % 2]
+        plan = [{"op": "simulate", "target": "solve_and_simulate" if j % 2 else "simulate", "init": init, "seed": r2.randrange(10**6), "vsrc": "own",
+                 "targets": r2.sample(pool, min(len(pool), 3)), "embed": {"n_full": n_full, "positions": embed_positions(r2, k, n_full)}}]
+        specs.append(mk_spec(len(specs), m, ["c13", "c02", "c03"], plan, label=f"large panel ({n_full} agents), 12 agents judged"))
     return specs
 
 
